@@ -71,7 +71,16 @@ pub fn corners(_args: &[String]) -> i32 {
                     std::slice::from_raw_parts_mut(p.as_mut_ptr(), p.len()),
                 )
             };
-            if let Ok(a) = LLFree::new(0, init, &classing, MetaData { local: l2, trees: t2, lower: p2 }) {
+            if let Ok(a) = LLFree::new(
+                0,
+                init,
+                &classing,
+                MetaData {
+                    local: l2,
+                    trees: t2,
+                    lower: p2,
+                },
+            ) {
                 let _ = a.get(None, Request::new(0, Class(0), None));
                 let _ = a.put(FrameId(0), Request::new(0, Class(0), None));
                 a.drain();
@@ -97,8 +106,20 @@ pub fn corners(_args: &[String]) -> i32 {
         let ((lp, ln), l) = heap_raw(ms.local, 0);
         let ((tp, tn), t) = heap_raw(ms.trees, 0);
         let ((pp, pn), p) = heap_raw(ms.lower, 0);
-        let mut a = LLFree::new(frames, Init::FreeAll, &classing, MetaData { local: l, trees: t, lower: p }).expect("init");
-        let (f, _) = a.get(None, Request::new(0, Class(0), Some(1))).expect("get");
+        let mut a = LLFree::new(
+            frames,
+            Init::FreeAll,
+            &classing,
+            MetaData {
+                local: l,
+                trees: t,
+                lower: p,
+            },
+        )
+        .expect("init");
+        let (f, _) = a
+            .get(None, Request::new(0, Class(0), Some(1)))
+            .expect("get");
         let (g, _) = a.get(None, Request::new(3, Class(0), None)).expect("get");
         // hand the buffers over to a second instance (assume-initialized), as the trait documents
         // (the old instance must not be touched any more, not even moved: its references are dead)
@@ -136,14 +157,21 @@ pub fn corners(_args: &[String]) -> i32 {
             let ((lp, ln), l) = heap_raw(ms.local, 0);
             let ((tp, tn), t) = heap_raw(ms.trees, 0);
             {
-                let a = NvmAlloc::<LLFree>::create(zone, recover, &classing, l, t).expect("nvm create");
+                let a =
+                    NvmAlloc::<LLFree>::create(zone, recover, &classing, l, t).expect("nvm create");
                 if !recover {
                     for order in [0usize, 3, 0] {
-                        held.push((a.get(None, Request::new(order, Class(0), Some(0))).expect("get").0, order));
+                        held.push((
+                            a.get(None, Request::new(order, Class(0), Some(0)))
+                                .expect("get")
+                                .0,
+                            order,
+                        ));
                     }
                 } else {
                     for (f, order) in held.drain(..) {
-                        a.put(f, Request::new(order, Class(0), None)).expect("put after recovery");
+                        a.put(f, Request::new(order, Class(0), None))
+                            .expect("put after recovery");
                     }
                     assert_eq!(a.stats().free_frames, a.frames());
                 }
@@ -165,7 +193,11 @@ pub fn threads(args: &[String]) -> i32 {
     // "safe": leave out the orders 3..=5, whose frees go through the narrow (1/2/4 byte) atomics
     // of Bitfield::toggle_int (known finding: mixed-size atomic accesses)
     let safe = args.get(2).is_some_and(|s| s == "safe");
-    let orders: &[usize] = if safe { &[0, 0, 1, 2, 6, 7, 9] } else { &[0, 0, 3, 4, 6, 7, 9] };
+    let orders: &[usize] = if safe {
+        &[0, 0, 1, 2, 6, 7, 9]
+    } else {
+        &[0, 0, 3, 4, 6, 7, 9]
+    };
     let mut total = 0u64;
     for i in 0..runs {
         let mut rng = Rng::new(run_seed(seed, "MT", i));
@@ -181,8 +213,21 @@ pub fn threads(args: &[String]) -> i32 {
         let (lp, l) = crate::buf::heap_raw(ms.local, 0);
         let (tp, t) = crate::buf::heap_raw(ms.trees, 0);
         let (pp, p) = crate::buf::heap_raw(ms.lower, 0);
-        let alloc = LLFree::new(cfg.frames, if cfg.alloc_all { Init::AllocAll } else { Init::FreeAll }, &classing, MetaData { local: l, trees: t, lower: p })
-            .expect("init");
+        let alloc = LLFree::new(
+            cfg.frames,
+            if cfg.alloc_all {
+                Init::AllocAll
+            } else {
+                Init::FreeAll
+            },
+            &classing,
+            MetaData {
+                local: l,
+                trees: t,
+                lower: p,
+            },
+        )
+        .expect("init");
         let n = 2;
         let ops = if cfg!(miri) { 6 } else { 200 };
         let seeds: Vec<u64> = (0..n).map(|_| rng.next()).collect();
@@ -207,10 +252,16 @@ pub fn threads(args: &[String]) -> i32 {
                         }
                         for _ in 0..ops {
                             let class = rng.below(classes.len()) as u8;
-                            let slot = if rng.chance(1, 4) { None } else { Some(rng.below(classes[class as usize])) };
+                            let slot = if rng.chance(1, 4) {
+                                None
+                            } else {
+                                Some(rng.below(classes[class as usize]))
+                            };
                             if held.is_empty() || rng.chance(1, 2) {
                                 let order = *rng.pick(orders);
-                                if let Ok((f, _)) = alloc.get(None, Request::new(order, Class(class), slot)) {
+                                if let Ok((f, _)) =
+                                    alloc.get(None, Request::new(order, Class(class), slot))
+                                {
                                     held.push((f.0, order));
                                 }
                             } else if rng.chance(1, 10) {
@@ -219,7 +270,10 @@ pub fn threads(args: &[String]) -> i32 {
                                 let (f, o) = held.swap_remove(rng.below(held.len()));
                                 // an unsplit huge frame freed in parts by two threads may hit the
                                 // known C03 finding (panic): tolerate it here, this tier looks for UB
-                                let r = std::panic::catch_unwind(std::panic::AssertUnwindSafe(|| alloc.put(FrameId(f), Request::new(o, Class(class), slot))));
+                                let r =
+                                    std::panic::catch_unwind(std::panic::AssertUnwindSafe(|| {
+                                        alloc.put(FrameId(f), Request::new(o, Class(class), slot))
+                                    }));
                                 if r.is_err() {
                                     break;
                                 }
